@@ -51,7 +51,7 @@ def main():
         meta["confirmed"] = ok
         print("confirmed" if ok else "NOT CONFIRMED", meta["ran"])
         detected = None
-        for tier in ("quick", "thorough"):
+        for tier in os.environ.get("SEED_TIERS", "quick,thorough").split(","):
             t0 = time.time()
             envc = dict(os.environ, VERIF_REPO=TREE, VERIF_EVIDENCE_DIR=TREE + "_ev", VERIF_FINDINGS_DIR=TREE + "_fi", VERIF_NO_SHRINK="1")
             rc = subprocess.run([os.path.join(HERE, "run_check.sh"), pid, tier], capture_output=True, text=True, env=envc)
